@@ -59,7 +59,24 @@ class Fresh:
         return Sourcefile.from_source(self.text)
 
 
+_LOCUS = {'Allocation': 'alloc', 'Deallocation': 'alloc', 'CallStatement': 'call', 'VariableDeclaration': 'spec',
+          'ProcedureDeclaration': 'spec', 'Import': 'spec', 'spec': 'spec', 'contains': 'contains'}
+
+
 def issue_key(name, issue):
+    """<entry>:<kind>:<class>:<locus>; the locus is a coarse class of the node the symbol sits in"""
+    parts = issue['key'].split(':')
+    if issue['kind'] in ('scope', 'undeclared') and len(parts) >= 3:
+        where = parts[-1]
+        if '.type.' in where:
+            loc = 'typeattr'
+        elif where.startswith('Associate'):
+            loc = 'associate'
+        elif where.startswith('TypeDef'):
+            loc = 'typedef'
+        else:
+            loc = _LOCUS.get(where, 'body')
+        return f"{name}:{':'.join(parts[:-1])}:{loc}"
     return f"{name}:{issue['key']}"
 
 
@@ -228,7 +245,7 @@ def run_scheduler(entry, opts, wc, rng, wd, counters, drhook=False):
     if drhook or entry.project.get('drhook'):
         wcp = copy.copy(wc)
         wcp.kmod = wflab.add_drhook(wc)
-    proj = wflab.make_project(wcp, rng, with_free=True, block_loop=True)
+    proj = wflab.make_project(wcp, rng, with_free=bool(entry.project.get('with_free')), block_loop=True)
     for name, text in proj['files']:
         (src / name).write_text(text)
     for name, text in proj['headers']:
@@ -312,8 +329,12 @@ def run_scheduler(entry, opts, wc, rng, wd, counters, drhook=False):
         # (d) the whole project compiles; files the scheduler did not load are taken as they were
         texts = [(n, after.get(n, t)) for n, t in proj['files']]
         texts += [(n, t) for n, t in after.items() if n not in dict(proj['files'])]
+        if entry.keep_originals:
+            # renaming transformations: the untransformed files stay part of the build unless the transformed
+            # file still defines the same modules / routines
+            texts = merge_with_originals(proj['files'], texts)
         if out['changed']:
-            okd, det = compile_project(wd / 'b1', texts, [inc])
+            okd, det = compile_project(wd / 'b1', texts, [inc], entry.fflags)
             counters['compile_checks'] = counters.get('compile_checks', 0) + 1
             if okd is None:
                 out['status'] = 'timeout'
@@ -327,13 +348,35 @@ def run_scheduler(entry, opts, wc, rng, wd, counters, drhook=False):
     return out
 
 
-def compile_project(wd, texts, incdirs):
+def _defined_units(text):
+    lo = text.lower()
+    mods = set(re.findall(r'^\s*module\s+(?!procedure\b)(\w+)\s*$', lo, re.M))
+    if mods:
+        return mods
+    return set(re.findall(r'^\s*(?:subroutine|function)\s+(\w+)', lo, re.M))
+
+
+def merge_with_originals(orig, new):
+    out = []
+    newd = dict(new)
+    for n, t in orig:
+        nt = newd.get(n, t)
+        if nt != t and not (_defined_units(nt) & _defined_units(t)):
+            out.append((n, t))
+            out.append((n.replace('.F90', '.loki.F90'), nt))
+        else:
+            out.append((n, nt))
+    out += [(n, t) for n, t in new if n not in dict(orig)]
+    return out
+
+
+def compile_project(wd, texts, incdirs, fflags=()):
     """syntax-check all files in module dependency order; (ok|None on timeout, detail)"""
     wd = Path(wd)
     shutil.rmtree(wd, ignore_errors=True)
     wd.mkdir(parents=True, exist_ok=True)
     for name, text in wflab.topo_order(list(texts)):
-        ok, det, to = wf.check_compile(wd, name, text, incdirs=incdirs)
+        ok, det, to = wf.check_compile(wd, name, text, incdirs=incdirs, fflags=fflags)
         if to:
             return None, 'timeout'
         if not ok:
